@@ -128,8 +128,9 @@ def main():
     for (op, gk), tvs in sorted(groups.items()):
         run.sample({"op": op, "group": gk, "args": tvs[len(tvs) // 2]["a"]}, limit=8)
         replay_group(run, cache, op, gk, tvs)
-    from harness import liechain
+    from harness import liechain, apalache
     chains = liechain.run_chains(run, tier)
+    unbounded = apalache.prove(run) if tier == "thorough" else {"skipped": "thorough tier only"}
     n += chains["steps"]
     need_groups = {"SO2", "SE2", "R2", "R3", "SO3quat", "SO3mrp", "SO3dcm", "SO3euler", "SE3quat", "SE3mrp",
                    "SE23quat", "SE23mrp"}
@@ -147,7 +148,7 @@ def main():
         "distinct_nontrivial": n - len([1 for (op, _), t in groups.items() if op == "mat" for _ in t]),
         "rule": "one TLC state = (operation, operands, exact expected matrix); non-trivial = any operation other than the bare to_Matrix pin",
         "per_group_op": {f"{gk}/{op}": len(t) for (op, gk), t in sorted(groups.items())},
-        "chains": chains,
+        "chains": chains, "apalache_unbounded_identities": unbounded,
         "exhaustive": True,
     })
 
